@@ -286,12 +286,24 @@ def execute(sc: dict, seed: int) -> dict:
                "digest": sched.digest(),
                "sample": {"jobs": [{"nodes": j["nodes"], "gap": j["gap"], "fail": j.get("fail")} for j in sc["jobs"][:3]],
                           "njobs": njobs, "workers": sc["workers"], "strategy": sc["strategy"], "virtual_seconds": round(sched.now, 3)}}
+        if uniq and sc.get("choices") is None:
+            res["scenario_patch"] = {"choices": list(sched.choices)}
         return res
     finally:
         w.close()
 
 
 def shrink_candidates(sc: dict):
+    # structural candidates change the workload, so they fall back to the seeded stream (choices=None) ...
+    for cand in _structural_candidates(sc):
+        yield dict(cand, choices=None)
+    # ... then the recorded choice stream of the (smaller) failing run is minimised: fewer pre-emptions
+    if isinstance(sc.get("choices"), list):
+        for ch in threads.choice_shrink_candidates(sc["choices"]):
+            yield dict(sc, choices=ch)
+
+
+def _structural_candidates(sc: dict):
     jobs = sc["jobs"]
     if len(jobs) > 1:
         half = len(jobs) // 2
